@@ -91,26 +91,7 @@ func H_C29_ranking() {
 			}
 		}
 	}
-	// files: non-increasing scores, except that the third place may hold a promoted file with a novel
-	// extension whose score is within 10% of the file it displaced
-	for i := 1; i < len(a); i++ {
-		if i == 2 || i == 3 {
-			continue
-		}
-		verifrt.Assert(a[i-1].Score >= a[i].Score, "files are ordered by non-increasing score")
-	}
-	if len(a) > 3 {
-		verifrt.Assert(a[1].Score >= a[3].Score, "apart from the promoted third place the order is by score")
-		if a[2].Score < a[3].Score {
-			e := path.Ext(a[2].FileName)
-			verifrt.Assert(e != path.Ext(a[0].FileName) && e != path.Ext(a[1].FileName), "only a file with an extension not among the first two is promoted to third place")
-			verifrt.Assert(a[2].Score >= 0.9*a[3].Score, "a promoted file scores at least 90% of the file it displaced")
-		} else {
-			verifrt.Assert(a[1].Score >= a[2].Score, "without a promotion the third place is in score order")
-		}
-	} else if len(a) == 3 {
-		verifrt.Assert(a[1].Score >= a[2].Score, "three files: plain score order")
-	}
+	verifCheckFileOrder(a)
 	verifrt.Reach("returned")
 }
 
@@ -118,4 +99,56 @@ func H_C29_twin() {
 	verifrt.ClockConcrete()
 	d := verifSimpleShard(verifRepo(1, "r1", "main"), verifC29Corpus)
 	verifrt.Assert(len(verifC29Run(d, &query.Substring{Pattern: "needle"}, zoekt.SearchOptions{})) == 77, "twin")
+}
+
+// verifCheckFileOrder: files are in non-increasing score order, except that the third place may hold
+// ONE promoted file: taking it out leaves a non-increasing sequence, its extension is not among the
+// first two files' extensions, and its score is at least 90% of the file it displaced.
+func verifCheckFileOrder(a []zoekt.FileMatch) {
+	sorted := true
+	for i := 1; i < len(a); i++ {
+		if a[i-1].Score < a[i].Score {
+			sorted = false
+		}
+	}
+	if sorted {
+		verifrt.Assert(true, "files are ordered by non-increasing score")
+		return
+	}
+	verifrt.Assert(len(a) > 3, "fewer than four files are in plain score order")
+	if len(a) <= 3 {
+		return
+	}
+	rest := append(append([]zoekt.FileMatch{}, a[:2]...), a[3:]...)
+	for i := 1; i < len(rest); i++ {
+		verifrt.Assert(rest[i-1].Score >= rest[i].Score, "apart from one promoted file in third place, files are ordered by non-increasing score")
+	}
+	e := path.Ext(a[2].FileName)
+	verifrt.Assert(e != path.Ext(a[0].FileName) && e != path.Ext(a[1].FileName), "only a file with an extension not among the first two is promoted to third place")
+	verifrt.Assert(a[2].Score >= 0.9*a[3].Score, "a promoted file scores at least 90% of the file it displaced")
+}
+
+// H_C29_sortFiles (kernel): SortFiles on 4-6 files whose extensions are a symbolic choice among three
+// and whose scores follow one of three profiles (all within 10%, spread out, with ties); input order
+// is a symbolic rotation.
+func H_C29_sortFiles() {
+	n := verifrt.Concretize(verifrt.IntRange("files", 3, 6))
+	profiles := [][]float64{{10, 9.9, 9.8, 9.7, 9.6, 9.5}, {10, 9, 8, 7, 6, 5}, {10, 10, 9.5, 9.5, 9.2, 9.2}}
+	prof := profiles[verifrt.Concretize(verifrt.IntRange("profile", 0, 2))]
+	exts := []string{".go", ".md", ".rs"}
+	rot := verifrt.Concretize(verifrt.IntRange("rotation", 0, 2))
+	files := make([]zoekt.FileMatch, n)
+	for i := 0; i < n; i++ {
+		k := (i + rot) % n
+		files[k] = zoekt.FileMatch{FileName: "f" + string(rune('a'+i)) + exts[verifrt.Concretize(verifrt.IntRange("ext", 0, 2))], Score: prof[i]}
+	}
+	SortFiles(files)
+	verifrt.Observe("files", n)
+	seen := map[string]bool{}
+	for _, f := range files {
+		verifrt.Assert(!seen[f.FileName], "sorting neither duplicates nor drops a file")
+		seen[f.FileName] = true
+	}
+	verifCheckFileOrder(files)
+	verifrt.Reach("returned")
 }
